@@ -181,13 +181,20 @@ def slow_source_jobs(rng, tier, mk_terms, add):
     inside the source the others reserve their chunks and queue at the turnstile, and the source
     reports 'nothing more' while reservations are still pending - interleavings the deterministic
     scheduler (atomic pulls) cannot produce."""
-    for i in range(16 if tier == "quick" else 160):
+    for i in range(24 if tier == "quick" else 240):
         src = rng.choice(("iter", "iter", "iterx", "deque", "hashset"))
         sh = rng.choice(["", "m", "f", "o", "l", "mf"][: (6 if src in ("iter", "iterx") else 5)])
         if len(sh) > SRC_MAXLEN[src]:
             sh = sh[:1]
-        p = gen_prog(rng, src=src, shape=sh, n=rng.choice([9, 12, 16, 24]), nt=rng.choice([3, 4, 6]),
-                     cs=rng.choice([("cs", 1), ("cs", 2), ("cs", 3), ("csmin", 2), None]))
+        n_ = rng.choice([9, 12, 16, 24])
+        if i % 2 == 0:
+            # "single round" configurations: k chunks cover the input and there are more threads than chunks
+            k = rng.choice([2, 3, 4])
+            c_, nt_ = -(-n_ // k), rng.choice([k + 1, 6, 8])
+            cs_ = rng.choice([("cs", c_), ("csmin", c_)])
+        else:
+            nt_, cs_ = rng.choice([3, 4, 6]), rng.choice([("cs", 1), ("cs", 2), ("cs", 3), ("csmin", 2), None])
+        p = gen_prog(rng, src=src, shape=sh, n=n_, nt=nt_, cs=cs_)
         p["term"] = mk_terms[i % len(mk_terms)](rng, src, shape_of(p))
         add(norm(p), "free", sleep_us=rng.choice([100, 300]) if src in ("iter", "iterx") else 0)
 
